@@ -19,7 +19,7 @@ import vlib
 
 ELEM = {"int8": 1, "uint8": 1, "int16": 2, "int32": 4}
 FAMS = ["single:conv@8", "single:dw@8", "single:maxpool@8", "single:avgpool@8", "single:fc@8", "conv_chain", "single:transpose@8",
-        "single:add@8", "single:sub@8", "single:mul@8", "single:add_bcast@8", "single:mul_scalar@8", "single:concat@u8", "diamond",
+        "single:add@8", "single:sub@8", "single:mul@8", "single:add_bcast@8", "single:mul_scalar@8", "single:concat@u8", "diamond", "siamese",
         "single:transpose@8", "single:reshape@8", "single:pad@8", "single:slice@8", "single:concat@8", "conv_chain"]
 
 
